@@ -3,10 +3,12 @@ import props.C01 as c01
 import props.C05 as c05
 RULE = c01.RULE + ("; the harness itself compares the pending tables with the calls in flight after every history; census on real sockets: "
                    "goroutines inside wsrpc code (grouped by function) and pending records after 1, 5, 25 reconnects (proxy cuts) and 3x as many "
-                   "failed calls (client timeout, server timeout, unconnected key) must not exceed the baseline")
+                   "failed calls (client timeout, server timeout, unconnected key) must not exceed the baseline; sockets: sessions ended by the peer (with and without a close frame) with the collector switched off - the process must hold no socket of an ended session, on the server and on the client (child processes)")
 ASSUMPTIONS = c01.ASSUMPTIONS + ["goroutines, timers and sockets are runtime objects: counted (after runtime.GC), not modelled"]
 FILES = c05.FILES + ["root/c14_test.go"]
 
 
 def run(ctx):
     c05.run(ctx, test="^TestVerifC14$", name="C14", files=FILES)
+    import props.C10 as c10
+    c10.run(ctx, test="^TestVerifC14Sockets$", name="C14", files=c10.FILES + ["root/c09_test.go", "root/c14s_test.go"])
